@@ -309,7 +309,7 @@ fn gen_hash(t: &mut Tape) -> HashCase {
                 t.bytes(len)
             } else {
                 // amounts: canonical, padded, negative, 2^64 boundary, too long
-                match t.below(12) {
+                match t.below(13) {
                     0 => vec![],
                     1 => vec![0],
                     2 => int_to_bytes(&(BigInt::one() << 64)),
@@ -326,6 +326,14 @@ fn gen_hash(t: &mut Tape) -> HashCase {
                         t.bytes(n)
                     }
                     8 => int_to_bytes(&BigInt::from(t.below(0x10000))),
+                    9 => {
+                        // canonical positive integers that need 10..13 bytes (0x00 sign byte, then a byte >= 0x80)
+                        let n = 9 + t.below(4) as usize;
+                        let mut b = vec![0u8];
+                        b.push(0x80 | (t.word() >> 25) as u8);
+                        b.extend(t.bytes(n - 1));
+                        b
+                    }
                     _ => int_to_bytes(&BigInt::from(t.u64() >> t.below(64))),
                 }
             };
